@@ -8,6 +8,7 @@
      indent         indent                    indents  indents ([indent, nbe = needs_block_end])
      flow           flow_level                lw       leading_whitespace
      fms            flow_mapping_started      ifm      implicit_flow_mapping_states ("P"/"I")
+     fcs            flow_collections (<<is_mapping, saved fms>> per open flow collection)
      adj            adjacent_value_allowed_at ssp/sep  stream_start/end_produced
      err, errmark   the error latch (Scanner.error), "" = none
 
@@ -313,7 +314,9 @@ FetchFlowStart(t, s, kind) ==
   IN IF s2.flow = 255 THEN Fail(s2, "recursion limit exceeded")
      ELSE LET m == Mark(s2)
               s3 == SkipNB([s2 EXCEPT !.flow = @ + 1, !.ska = TRUE])
-              s4 == IF kind = "FlowMappingStart" THEN [s3 EXCEPT !.fms = TRUE] ELSE [s3 EXCEPT !.ifm = Append(@, "P")]
+              isMap == kind = "FlowMappingStart"
+              s3b == [s3 EXCEPT !.fcs = Append(@, <<isMap, s3.fms>>), !.fms = isMap]    \* fms describes the innermost flow collection
+              s4 == IF isMap THEN s3b ELSE [s3b EXCEPT !.ifm = Append(@, "P")]
               s5 == SkipWsToEol(t, s4, TRUE)
           IN IF s5.err # "" THEN s5 ELSE Push(s5, Tok(kind, m, Mark(s5), <<>>, <<>>))
 
@@ -325,15 +328,19 @@ FetchFlowEnd(t, s, kind) ==
            s4 == IF kind = "FlowSequenceEnd"
                  THEN LET e == EndImplicit(s3, Mark(s3)) IN [e EXCEPT !.ifm = IF @ = <<>> THEN @ ELSE Front(@)]
                  ELSE s3
-           m == Mark(s4)
-           s5 == SkipWsToEol(t, SkipNB(s4), TRUE)
+           s4b == IF s4.fcs # <<>> THEN [s4 EXCEPT !.fms = Last(s4.fcs)[2], !.fcs = Front(@)] ELSE s4   \* back in the enclosing collection
+           m == Mark(s4b)
+           s5 == SkipWsToEol(t, SkipNB(s4b), TRUE)
        IN IF s5.err # "" THEN s5
           ELSE Push(IF s5.flow > 0 THEN [s5 EXCEPT !.adj = s5.pos] ELSE s5, Tok(kind, m, Mark(s5), <<>>, <<>>))
 
 FetchFlowEntry(t, s) ==
   LET s1 == RemoveSK(s) IN
   IF s1.err # "" THEN s1
-  ELSE LET s2 == EndImplicit([s1 EXCEPT !.ska = TRUE], Mark(s1))
+  ELSE LET s1a == [s1 EXCEPT !.ska = TRUE]
+           \* a ',' directly inside a flow sequence ends the entry (implicit "k: v" or explicit "? k : v" mapping);
+           \* a ',' inside a flow mapping does not
+           s2 == IF s1a.fcs # <<>> /\ ~Last(s1a.fcs)[1] THEN [EndImplicit(s1a, Mark(s1a)) EXCEPT !.fms = FALSE] ELSE s1a
            m == Mark(s2)
            s3 == SkipWsToEol(t, SkipNB(s2), TRUE)
        IN IF s3.err # "" THEN s3 ELSE Push(s3, Tok("FlowEntry", m, Mark(s3), <<>>, <<>>))
@@ -707,7 +714,7 @@ NextToken(t, s) ==
 
 ScanInit == [pos |-> 0, line |-> 1, col |-> 0, tokens |-> <<>>, parsed |-> 0, avail |-> FALSE,
              sks |-> <<>>, ska |-> TRUE, indent |-> -1, indents |-> <<>>, flow |-> 0, lw |-> TRUE,
-             fms |-> FALSE, ifm |-> <<>>, adj |-> 0, ssp |-> FALSE, sep |-> FALSE, err |-> "", errmark |-> <<0, 0, 0>>]
+             fms |-> FALSE, ifm |-> <<>>, fcs |-> <<>>, adj |-> 0, ssp |-> FALSE, sep |-> FALSE, err |-> "", errmark |-> <<0, 0, 0>>]
 
 \* ---- invariants of the scanner state: each is the reason one panic site is safe (C01) ----
 \* simple_keys.last().unwrap() / .pop().unwrap(): one entry per flow level plus the stream's
